@@ -177,8 +177,11 @@ LeasePairs == {<<Leases[i].lease, Leases[i].ns>> : i \in DOMAIN Leases}
 NsCollisions == {<<pq[1][1], pq[2][1]>> : pq \in {x \in LeasePairs \X LeasePairs : x[1][1] # x[2][1] /\ x[1][2] = x[2][2]}}
 NsUnstable   == {pq[1][1] : pq \in {x \in LeasePairs \X LeasePairs : x[1][1] = x[2][1] /\ x[1][2] # x[2][2]}}
 NsInvalid    == {Leases[i].ns : i \in {j \in DOMAIN Leases : ~ValidDNS1123Label(Leases[j].nsChars)}}
-NsReport == [distinctLeases |-> Cardinality({p[1] : p \in LeasePairs}), distinctNames |-> Cardinality({p[2] : p \in LeasePairs}),
-             collisions |-> Cardinality(NsCollisions), unstable |-> Cardinality(NsUnstable), invalid |-> NsInvalid,
+\* a function iff #pairs = #leases, injective iff then #pairs = #names (NsCollisions / NsUnstable above are the witness
+\* sets; with thousands of probe ids only their sizes are reported)
+NsReport == LET nl == Cardinality({p[1] : p \in LeasePairs}) nn == Cardinality({p[2] : p \in LeasePairs}) np == Cardinality(LeasePairs) IN
+            [distinctLeases |-> nl, distinctNames |-> nn,
+             collisions |-> np - nn, unstable |-> np - nl, invalid |-> NsInvalid,
              remoteEndpoints |-> Cardinality(Remote), egressPorts |-> Cardinality(EgressPorts)]
 
 -----------------------------------------------------------------------------
